@@ -55,6 +55,7 @@ type Result struct {
 	Known         []OracleViolation `json:"known_findings"`
 	Crashes       []string          `json:"crashes"`
 	ResourceSkips []string          `json:"resource_skips"` // cases given up for time/memory (not crashes)
+	ModelCrashes  []string          `json:"model_crashes"`  // cases on which the model's driver ran out of native stack: not compared
 	Streams       map[string]int    `json:"streams"`
 	Tags          map[string]int    `json:"tags"`
 	Outcomes      map[string]int    `json:"outcomes"`
@@ -185,30 +186,54 @@ func runDrivers(driver string, shards int, perShard [][]int, cases []GenCase) ma
 			if len(perShard[s]) == 0 {
 				return
 			}
-			cmd := exec.Command(driver)
-			stdin, _ := cmd.StdinPipe()
-			pipe, _ := cmd.StdoutPipe()
-			cmd.Stderr = os.Stderr
-			if err := cmd.Start(); err != nil {
-				panic(err)
-			}
-			go func() {
-				w := bufio.NewWriter(stdin)
-				for _, idx := range perShard[s] {
-					w.WriteString(cases[idx].Case.Sexp() + "\n")
+			// the driver is a native program: a model evaluation that exhausts its stack kills it.
+			// The case it died on is marked (modelcrash=1, reported in the evidence, never compared)
+			// and a fresh driver takes the rest of the shard.
+			var todo []int
+			for _, idx := range perShard[s] {
+				if !cases[idx].ModelFree { // judged without the model: nothing to ask it
+					todo = append(todo, idx)
 				}
-				w.Flush()
-				stdin.Close()
-			}()
-			sc := bufio.NewScanner(pipe)
-			sc.Buffer(make([]byte, 1<<20), 1<<28)
-			for sc.Scan() {
-				id, _ := parseLine(sc.Text())
-				mu.Lock()
-				out[id] = sc.Text()
-				mu.Unlock()
 			}
-			cmd.Wait()
+			for len(todo) > 0 {
+				cmd := exec.Command(driver)
+				stdin, _ := cmd.StdinPipe()
+				pipe, _ := cmd.StdoutPipe()
+				cmd.Stderr = os.Stderr
+				if err := cmd.Start(); err != nil {
+					panic(err)
+				}
+				go func(todo []int) {
+					w := bufio.NewWriter(stdin)
+					for _, idx := range todo {
+						w.WriteString(cases[idx].Case.Sexp() + "\n")
+					}
+					w.Flush()
+					stdin.Close()
+				}(todo)
+				sc := bufio.NewScanner(pipe)
+				sc.Buffer(make([]byte, 1<<20), 1<<28)
+				done := 0
+				for sc.Scan() {
+					id, _ := parseLine(sc.Text())
+					mu.Lock()
+					out[id] = sc.Text()
+					mu.Unlock()
+					if done < len(todo) && cases[todo[done]].Case.ID == id {
+						done++
+					}
+				}
+				cmd.Wait()
+				if done >= len(todo) {
+					break
+				}
+				id := cases[todo[done]].Case.ID
+				fmt.Fprintf(os.Stderr, "model driver died on case %s; restarting after it\n", id)
+				mu.Lock()
+				out[id] = id + " modelcrash=1"
+				mu.Unlock()
+				todo = todo[done+1:]
+			}
 		}(s)
 	}
 	wg.Wait()
@@ -322,6 +347,15 @@ func main() {
 			continue
 		}
 		_, mkv := parseLine(ml)
+		if mkv["modelcrash"] == "1" {
+			// the model's evaluation of this case exhausted the driver's native stack: the model gave no answer.
+			// A handful per run is a resource limit of the machinery; more than that is reported as a disagreement.
+			res.ModelCrashes = append(res.ModelCrashes, c.ID)
+			if len(res.ModelCrashes) > 3 {
+				res.Disagreements = append(res.Disagreements, Disagreement{ID: c.ID, Stream: gc.Stream, Key: "(model driver crashed)", Impl: il, Case: c.Sexp(), Script: c.Script})
+			}
+			continue
+		}
 		// a run the model cannot answer (unsupported library behaviour, out of fuel) ends the comparison of this case
 		stop := -1
 		for k, v := range mkv {
